@@ -662,8 +662,10 @@ pub fn run_c12_timeouts(a: &Args, shared: &SharedReport) {
                 if idx % a.nshards != a.shard {
                     continue;
                 }
-                let name = format!("{shape}/{st}/T{t}/expiring-timeout/fire-after-{pos}{}", if rr { "/round-robin" } else { "" });
-                let rv = json!({"engine": "e2expire", "shape": shape, "strategy": st, "threads": t, "fire_after_decisions": pos, "round_robin": rr});
+                // the configured timeout: whole and fractional seconds (the expiry test must not round)
+                let millis: u64 = [1000, 1500, 400, 2900][(idx % 4) as usize];
+                let name = format!("{shape}/{st}/T{t}/expiring-timeout-{millis}ms/fire-after-{pos}{}", if rr { "/round-robin" } else { "" });
+                let rv = json!({"engine": "e2expire", "shape": shape, "strategy": st, "threads": t, "fire_after_decisions": pos, "round_robin": rr, "timeout_ms": millis});
                 begin_case(shared, &name, rv.clone(), "e2:c12-stuck-outside-scheduler");
                 let timer = t; // thread id of "timeout"
                 let horizon = 600;
@@ -680,7 +682,7 @@ pub fn run_c12_timeouts(a: &Args, shared: &SharedReport) {
                         opts.iter().position(|o| *o == timer).unwrap_or(0)
                     }
                 };
-                let (evaluated, tr) = run_big(t, st, 1, &mut choose, horizon, if st == "simulation" { 10 } else { depth }, branching);
+                let (evaluated, tr) = run_big(t, st, millis, &mut choose, horizon, if st == "simulation" { 10 } else { depth }, branching);
                 end_case(shared);
                 // blocks started per worker after the timer thread exited
                 let timer_exit = tr.log.iter().position(|(th_id, l)| *th_id == timer && l == "exit");
@@ -707,10 +709,11 @@ pub fn run_c12_timeouts(a: &Args, shared: &SharedReport) {
                 if let Some(te) = timer_exit {
                     let _ = te;
                     if let Some(c) = tr.timer_exit_clock {
-                        let secs = c / 1_000_000_000;
-                        if secs < 1 || secs > 3 {
+                        // not before the timeout has expired, and within two of the timer thread's one-second naps after it
+                        let (lo, hi) = (millis as u128 * 1_000_000, (millis as u128 + 2_000) * 1_000_000);
+                        if c < lo || c > hi {
                             let mut r = shared.lock().unwrap();
-                            r.violation(&format!("e2:c12-timeout-wrong-deadline:{st}"), format!("{name}: timeout(1s) closed the check at virtual time {secs} s"), rv.clone());
+                            r.violation(&format!("e2:c12-timeout-wrong-deadline:{st}"), format!("{name}: timeout({millis} ms) closed the check at virtual time {} ms", c / 1_000_000), rv.clone());
                         }
                     }
                 }
@@ -738,7 +741,7 @@ pub fn run_c12_timeouts(a: &Args, shared: &SharedReport) {
     }
 }
 
-fn run_big(threads: usize, strategy: &str, secs: u64, choose: &mut dyn FnMut(usize, usize, &[usize], &[TState]) -> usize, horizon: usize, depth: u32, branching: u64) -> (usize, RunTrace) {
+fn run_big(threads: usize, strategy: &str, millis: u64, choose: &mut dyn FnMut(usize, usize, &[usize], &[TState]) -> usize, horizon: usize, depth: u32, branching: u64) -> (usize, RunTrace) {
     let s = sched();
     let nm = names(threads, true);
     let workers: Vec<usize> = (0..threads).collect();
@@ -747,7 +750,7 @@ fn run_big(threads: usize, strategy: &str, secs: u64, choose: &mut dyn FnMut(usi
     s.begin(&nm);
     let evaluated = Arc::new(Mutex::new(0usize));
     let e2 = Arc::clone(&evaluated);
-    let b = BigTree { depth, branching }.checker().threads(threads).timeout(Duration::from_secs(secs)).visitor(move |_p: Path<(u32, u64), u64>| {
+    let b = BigTree { depth, branching }.checker().threads(threads).timeout(Duration::from_millis(millis)).visitor(move |_p: Path<(u32, u64), u64>| {
         *e2.lock().unwrap() += 1;
     });
     fn fin<C: Checker<BigTree>>(c: C, rtc: bool, between: &mut dyn FnMut() -> bool) {
